@@ -343,34 +343,56 @@ func (c *compiler) compileType(y *Type, parent Leafable, isUnion bool) error {
 
 	if y.format == val.FmtEnum || y.format == val.FmtEnumList {
 		y.enum = make(val.EnumList, len(y.enums))
-		nextId := 0
+		// RFC7950 Sec 9.6.4.2 - first is zero, otherwise one greater than the
+		// highest value so far, stated or assigned
+		highest := 0
 		for i, item := range y.enums {
-			if item.val > 0 {
-				nextId = item.val
-			} else {
-				item.val = nextId
+			if !item.valSet {
+				if i == 0 {
+					item.val = 0
+				} else {
+					item.val = highest + 1
+				}
+			}
+			if i == 0 || item.val > highest {
+				highest = item.val
 			}
 			y.enum[i] = val.Enum{
-				Id:    nextId,
+				Id:    item.val,
 				Label: item.ident,
 			}
-			nextId++
 		}
 	}
 
 	if y.format == val.FmtBits || y.format == val.FmtBitsList {
-		nextPos := 0
-		for _, item := range y.bits {
-			if item.Position > 0 {
-				nextPos = item.Position
-			} else {
-				item.Position = nextPos
+		// RFC7950 Sec 9.7.4.2 - same rule as enum values
+		highest := 0
+		for i, item := range y.bits {
+			if !item.positionSet {
+				if i == 0 {
+					item.Position = 0
+				} else {
+					item.Position = highest + 1
+				}
 			}
-			nextPos++
+			if i == 0 || item.Position > highest {
+				highest = item.Position
+			}
 		}
 	}
 
 	return nil
+}
+
+func inheritFromTypedef(parent Leafable, tdef *Typedef) {
+	if !parent.HasDefault() {
+		if tdef.HasDefault() {
+			parent.setDefaultValue(tdef.DefaultValue())
+		}
+	}
+	if parent.Units() == "" {
+		parent.setUnits(tdef.Units())
+	}
 }
 
 func (c *compiler) findTypedef(y *Type, parent Definition, qualifiedIdent string) (*Typedef, error) {
